@@ -824,6 +824,36 @@ func (e *engine) doStep(st step) {
 			e.fail("C13.no-exit", "exit/holder/"+obs, false, map[string]any{"codes": r.Exits})
 		}
 
+	case "RDie":
+		// the holder's writing process dies in the middle of a transaction: journal synced, pages written,
+		// nothing committed. Its database handles are closed (its locks go away), the journal stays; the
+		// HALT lock is held through the lock-file handle of another process and stays as well.
+		var tx *openTx
+		var r txResult
+		pn, to := bounded("holder-writer-dies", 60*time.Second, func() {
+			for a := 0; a < 10; a++ {
+				if tx, r = w.beginTx("R", false); tx != nil || r.Stage != "begin" || !isBusy(r.Errno) {
+					break
+				}
+				time.Sleep(30 * time.Millisecond)
+			}
+			if tx != nil {
+				tx.pg.C.Close()
+				delete(w.pg, "R")
+				if st.G.Kind != "other-pages" {
+					w.ver++ // the next transaction (same parity of the version) rewrites the pages the dead one touched
+				}
+			}
+		})
+		if e.callTrouble("holder writer", pn, to) {
+			return
+		}
+		if tx != nil {
+			obs = "ok"
+		} else {
+			obs = fmt.Sprintf("other: %v at %s", r.Err, r.Stage)
+		}
+
 	case "Release":
 		switch st.G.F {
 		case "reqlost":
@@ -1378,6 +1408,17 @@ func (e *engine) finish() {
 			e.res.Leads["store-exit-"+n]++
 		}
 	}
+	// a holder whose writer died is an ordinary replica with a journal to roll back once its lock has ended:
+	// the primary's next transaction must not make it stop itself
+	for _, st := range e.sc.H {
+		if st.A == "RDie" && !e.rDead && !e.dead {
+			e.res.Evals++
+			if ex := w.n["R"].Exits(); len(ex) > 0 {
+				e.fail("C13.no-exit", "exit/holder-after-its-writer-died", false, map[string]any{"codes": ex, "holder_position": w.pos("R").String(), "primary_position": w.pos(e.prim).String()})
+			}
+			break
+		}
+	}
 }
 
 // ---------------------------------------------------------------- directed scenarios
@@ -1412,6 +1453,13 @@ func directed() []script {
 		{NoModel: true, Src: "directed/late-release-after-expiry", H: []step{
 			mk("Acquire", gArgs{F: "none", D: true}), mk("RTx", none), mk("Release", gArgs{F: "none", D: true}), mk("Open", gArgs{ID: 2}), mk("Acquire", none),
 			mk("Dup", gArgs{K: "unhalt"}), mk("RTx", none), mk("LWBegin", gArgs{}), mk("Dup", gArgs{K: "halt"}), mk("RTx", none), mk("Release", none), mk("LWBegin", gArgs{}), mk("LWCommit", gArgs{})}},
+		// the holder's writer dies with a hot journal, the lock expires on the primary, the primary commits:
+		// the transaction arriving on the (former) holder and the rollback of the dead transaction must leave
+		// the holder with the primary's image under the primary's position
+		{NoModel: true, Src: "directed/holder-writer-dies-then-expiry", H: []step{
+			mk("Acquire", none), mk("RTx", none), mk("RDie", gArgs{}), mk("Expire", gArgs{N: "P"}), mk("LWBegin", gArgs{}), mk("LWCommit", gArgs{})}},
+		{NoModel: true, Src: "directed/holder-writer-dies-first-then-expiry", H: []step{
+			mk("Acquire", none), mk("RDie", gArgs{Kind: "other-pages"}), mk("Expire", gArgs{N: "P"}), mk("LWBegin", gArgs{}), mk("LWCommit", gArgs{}), mk("LWBegin", gArgs{}), mk("LWCommit", gArgs{})}},
 		{NoModel: true, Src: "directed/lagging-holder", H: []step{
 			mk("Lag", gArgs{}), mk("LWBegin", gArgs{}), mk("LWCommit", gArgs{}), mk("LagWait", gArgs{}), mk("Acquire", none), mk("RTx", none), mk("Release", none)}},
 	}
